@@ -41,12 +41,15 @@ fn field_ty_text(f: &Field, u: &Universe) -> String {
     if f.optional { format!("{}<{}>", ["Option", "std::option::Option", "core::option::Option", "::core::option::Option", "Option"][(f.idx as usize + f.name.len()) % 5], t) } else { t }
 }
 
-fn field_attrs(f: &Field) -> String {
+fn field_attrs(f: &Field, u: &Universe) -> String {
     if f.skip { return "#[cbor(skip)]".into() }
     let mut parts: Vec<String> = Vec::new();
     let mut s = String::new();
     let ix = format!("{}({})", if f.b { "b" } else { "n" }, f.idx);
-    if f.long_attr { parts.push(ix) } else { write!(s, "#[{}] ", ix).unwrap() }
+    // a field whose type only compiles with the lifetime bound that `b` adds keeps the short spelling: if a change to the
+    // macros loses the marker there, the population stops compiling (inconclusive), whereas on Cow / &str fields the loss is a
+    // run-time difference the borrow check sees
+    if f.long_attr && !(f.b && must_be_b(&f.ty, u)) { parts.push(ix) } else { write!(s, "#[{}] ", ix).unwrap() }
     if let Some(t) = f.tag { parts.push(format!("tag({})", t)) }
     match f.ty {
         Ty::BytesVec | Ty::BytesSlice | Ty::BytesArr4 | Ty::CowBytes => parts.push("with = \"minicbor::bytes\"".into()),
@@ -93,8 +96,8 @@ fn fields_decl(fields: &[Field], shape: Shape, u: &Universe, public: bool) -> St
     let p = if public { "pub " } else { "" };
     match shape {
         Shape::Unit => String::new(),
-        Shape::Tuple => format!("({})", fields.iter().map(|f| format!("{} {}{}", field_attrs(f), p, field_ty_text(f, u))).collect::<Vec<_>>().join(", ")),
-        Shape::Named => format!(" {{ {} }}", fields.iter().map(|f| format!("{} {}{}: {}", field_attrs(f), p, f.name, field_ty_text(f, u))).collect::<Vec<_>>().join(", "))
+        Shape::Tuple => format!("({})", fields.iter().map(|f| format!("{} {}{}", field_attrs(f, u), p, field_ty_text(f, u))).collect::<Vec<_>>().join(", ")),
+        Shape::Named => format!(" {{ {} }}", fields.iter().map(|f| format!("{} {}{}: {}", field_attrs(f, u), p, f.name, field_ty_text(f, u))).collect::<Vec<_>>().join(", "))
     }
 }
 
